@@ -4,12 +4,13 @@ spec/aclchain/AclChain.tla: accepted log, replicas (mode x storage x identity) t
 one at a time / in batches, restart from storage (also from a database with a permuted order
 index), bootstrap from a peer's whole log, catch up from RecordsAfter, exchange head updates and
 full-sync answers, and are handed every kind of refusable record - alone and as the tail of a batch
-of accepted records (AddRawRecords called directly, by HandleHeadUpdate, by HandleResponse).
+of accepted records (AddRawRecords called directly, by HandleHeadUpdate, by HandleResponse) and
+inside the records a list is built from (served records, altered database rows).
   1. TLC, exhaustive, on the design: StateIsFunctionOfLog, ReplicasAgree, OnlyHeadExtends,
      StorageMatchesState, AcceptedWasValid, CatchUpReachesHead, MigratedRebuildAgrees,
-     RejectedIsNoOp; the four named deviations (pre-repair RecordsAfter, trusted scan order,
-     state swapped before validation, batch applied on one shared state copy) must each violate
-     their invariant (non-vacuity).
+     RejectedIsNoOp; the five named deviations (pre-repair RecordsAfter, trusted scan order,
+     state swapped before validation, batch applied on one shared state copy, build without
+     verification) must each violate their invariant (non-vacuity).
   2. spec -> code: behaviours simulated from AclChainGen are replayed on real AclLists with real
      keys and signatures (harness/aclchain), plus two fixed histories; property predicates are
      evaluated on the real observations after every step.
@@ -27,7 +28,8 @@ LEVEL = "model_checking"
 DEVIATIONS = [("AclChain_dev_serve.cfg", "CatchUpReachesHead"),
               ("AclChain_dev_scan.cfg", "MigratedRebuildAgrees"),
               ("AclChain_dev_swap.cfg", "RejectedIsNoOp"),
-              ("AclChain_dev_batch.cfg", "RejectedIsNoOp")]
+              ("AclChain_dev_batch.cfg", "RejectedIsNoOp"),
+              ("AclChain_dev_build.cfg", "RejectedIsNoOp")]
 
 
 def expect_violation(ctx, cfg, inv):
